@@ -75,6 +75,10 @@ def c06_batches(tier):
             bs.append(B("conc-swarm-%s-%s" % (be, var), "conc", be, var, cnt, spec="swarm:16", specpool=4, nkeys=2, maxw=8, weight=30 if q else 300))
         bs.append(B("conc-wide-%s-optim" % be, "conc", be, "optim", 12 if q else 400, spec="swarm:4", specpool=2, nkeys=1, maxw=64, maxops=2, w=64 if q else 48,
                     phist=0.2, weight=30 if q else 300, det_count=2))
+    # auxiliary: free-running threads under ThreadSanitizer (races inside straight-line code cannot be scheduled at interposed calls)
+    for be in (["spqlios-fma", "nayuki-portable", "fftw"] if q else BACKENDS):
+        bs.append(B("stress-tsan-%s" % be, "stress", be, "optim-tsan", 4 if q else 200, spec="swarm:6", specpool=2, nkeys=1, maxw=8, weight=25 if q else 250,
+                    no_determinism=True, max_procs=2 if q else 6))
     for spec in ("P128", "P80"):
         bs.append(B("conc-%s-spqlios-fma-optim" % spec, "conc", "spqlios-fma", "optim", 4 if q else 60, spec=spec, nkeys=1, maxw=4, maxops=2, pchurn=0.3, ploader=0.0,
                     weight=80 if q else 400, det_count=1, max_procs=4 if q else 8))
